@@ -1,4 +1,4 @@
 SPECIFICATION Spec
-CONSTANT MaxZ = 6
+CONSTANT MaxZ = 7
 INVARIANT Theorems
 CHECK_DEADLOCK FALSE
